@@ -180,6 +180,25 @@ def run(pid, tier, seed):
                             chk.fail("allow-list", dict(case, got=again, expected=got, sys_path_entry=extra,
                                                         detail="the filter's answer depends on sys.path"))
                     mtconfig.default_code_filter.cache_clear()
+                if kind.startswith("user"):
+                    # ... nor is which file happens to be running as the `__main__` script: the same file imported under its
+                    # real name (`python app.py` with `import app` elsewhere) is an ordinary project module
+                    main_mod = sys.modules["__main__"]
+                    had, old_file = hasattr(main_mod, "__file__"), getattr(main_mod, "__file__", None)
+                    try:
+                        main_mod.__file__ = path
+                        mtconfig.default_code_filter.cache_clear()
+                        chk.evaluations += 1
+                        again = bool(mtconfig.default_code_filter(cos[0]))
+                    finally:
+                        if had:
+                            main_mod.__file__ = old_file
+                        else:
+                            del main_mod.__file__
+                        mtconfig.default_code_filter.cache_clear()
+                    if again != got:
+                        chk.fail("allow-list" if al is not None else "default",
+                                 dict(case, got=again, expected=got, detail="the filter's answer depends on which file is running as __main__"))
                 if kind != "stdlib" or al is not None:
                     chk.nontriv("%s|%r" % (os.path.realpath(path), al))
                 reqs.append(("codeFilter", model_libs, "none" if al is None else tuple(Q(x) for x in al), info(path)))
